@@ -161,6 +161,52 @@ func checkC13(c *Ctx, r *Report) {
 			}
 			return isLen(b.X) && isSize(b.Y) || isLen(b.Y) && isSize(b.X)
 		}, true))
+		if !ok && data != nil {
+			// the bytes come from a helper that returns them only where it compared
+			// their length equal with the size it was given — the caller's size
+			if ex, isEx := data.(*ssa.Extract); isEx {
+				if wc, isC := ex.Tuple.(*ssa.Call); isC {
+					if w := wc.Common().StaticCallee(); w != nil && w.Pkg == fn.Pkg && len(w.Blocks) > 0 && inSuccessRegion(wc, cs.Instr) {
+						all, n := true, 0
+						for _, ret := range returnsOf(w) {
+							if classifyReturn(ret) == RetFailure || ex.Index >= len(ret.Results) {
+								continue
+							}
+							n++
+							d := unspill(ret.Results[ex.Index])
+							same := guardedBy(ret, eqFact(func(b *ssa.BinOp) bool {
+								isLen := func(v ssa.Value) bool {
+									return mentions(v, func(x ssa.Value) bool {
+										cl, isCl := x.(*ssa.Call)
+										if !isCl {
+											return false
+										}
+										bi, isB := cl.Call.Value.(*ssa.Builtin)
+										return isB && bi.Name() == "len" && cl.Call.Args[0] == d
+									}, 4)
+								}
+								isSizeParam := func(v ssa.Value) bool {
+									for i, prm := range w.Params {
+										if v == ssa.Value(prm) && i < len(wc.Common().Args) {
+											p, isP := wc.Common().Args[i].(*ssa.Parameter)
+											return isP && p.Name() == "size"
+										}
+									}
+									return false
+								}
+								return isLen(b.X) && isSizeParam(b.Y) || isLen(b.Y) && isSizeParam(b.X)
+							}, true))
+							if !same {
+								all = false
+							}
+						}
+						if all && n > 0 {
+							ok = true
+						}
+					}
+				}
+			}
+		}
 		r.Check(ok, r5, fn, "Add with reserved size == len(data)", cs.Instr, "sizes agree", "an entry is added although the reserved size was not compared equal with len(data): removal releases len(data), so the account drifts (stored bytes unaccounted, or other reservations wiped by the underflow reset)")
 	}
 	for _, fn := range c.FuncsIn(pkgCache) {
@@ -212,14 +258,34 @@ func checkC13(c *Ctx, r *Report) {
 	}
 	if hs := r.MustFunc(r6, "(*"+tLRU+").Has"); hs != nil {
 		ok := false
+		notExpired := func(cond ssa.Value, val bool) int {
+			if isCallTo(cond, "(time.Time).After") {
+				return tern(val, -1, 1)
+			}
+			return 0
+		}
 		for _, ret := range returnsOf(hs) {
-			if isBoolConst(unspill(ret.Results[0]), true) {
-				ok = guardedBy(ret, func(cond ssa.Value, val bool) int {
-					if isCallTo(cond, "(time.Time).After") {
-						return tern(val, -1, 1)
+			v := unspill(ret.Results[0])
+			if isBoolConst(v, true) {
+				ok = guardedBy(ret, notExpired)
+			}
+			// `return exists && !expired`: a phi whose only non-false edge is the
+			// negated expiry test itself
+			if phi, isPhi := v.(*ssa.Phi); isPhi {
+				good, any := true, false
+				for _, e := range phi.Edges {
+					if isBoolConst(e, false) {
+						continue
 					}
-					return 0
-				})
+					any = true
+					ev, pol := stripNot(e, true)
+					if notExpired(ev, pol) <= 0 {
+						good = false
+					}
+				}
+				if good && any {
+					ok = true
+				}
 			}
 		}
 		r.Check(ok, r6, hs, "Has tests expiry", nil, "true only when not expired", "Has reports a key without testing its expiry time")
